@@ -225,7 +225,7 @@ def assemble(units):
 
 
 def coq_units(abstract):
-    return "[" + "; ".join("(" + ", ".join(cz(x) for x in t) + ")" for t in abstract) + "]"
+    return "[" + "; ".join("UL " + " ".join(cz(x) for x in t) for t in abstract) + "]"
 
 
 def split_units(data):
@@ -914,7 +914,8 @@ def check_rules_in_coq(ctx, name, cases):
 
 # ------------------------------------------------------------------------------------------
 def exhaustive_orderings(ctx, cfg, maxlen, level, alphabet="HhPFDpaE"):
-    """All orderings up to maxlen over the alphabet, correct offsets, consecutive numbering:
+    """All orderings of length <= 2, and all orderings of length <= maxlen that start with a sequence
+    header (anything else is rejected at the first unit), correct offsets, consecutive numbering:
     H header, h byte-distinct header, P picture, F first fragment, D next data fragment,
     p padding, a auxiliary data, E end of sequence."""
     major = 3
@@ -932,8 +933,10 @@ def exhaustive_orderings(ctx, cfg, maxlen, level, alphabet="HhPFDpaE"):
     H = cfg.header(major, level, 0)
     h = cfg.header(major, level, 1)
     out = []
-    for n in range(1, maxlen + 1):
-        for word in itertools.product(alphabet, repeat=n):
+    words = [w for n in (1, 2) for w in itertools.product(alphabet, repeat=n)]
+    words += [("H",) + w for n in range(2, maxlen) for w in itertools.product(alphabet, repeat=n)]
+    if True:
+        for word in words:
             units = []
             picnum = 0
             k = 0
@@ -1000,12 +1003,13 @@ def run(ctx):
     for units, label, cfgname in corpus_cases():
         cases.append(make_case(units, "corpus:" + label, cfgname))
     # ---- (a) exhaustive orderings ---------------------------------------------------------------
+    full = "HhPFDpaE"
     plan = ctx.pick(
-        [("hq-frames-frag1-2x2", 4, 0, "HhPFDpaE"), ("hq-frames-pic-2x1", 4, 1, "HPFDpE"), ("ld-fields-frag4-2x2", 3, 0, "HhPFDpaE"),
-         ("ld-frames-pic-2x1", 4, 64, "HPFaE"), ("hq-fields-pic-1x1", 4, 66, "HPDE"), ("hq-fields-frag2-3x2", 3, 3, "HhPFDpaE")],
-        [("hq-frames-frag1-2x2", 5, 0, "HhPFDpaE"), ("hq-frames-pic-2x1", 5, 1, "HhPFDpaE"), ("ld-fields-frag4-2x2", 5, 0, "HhPFDpaE"),
-         ("ld-frames-pic-2x1", 5, 64, "HhPFDpaE"), ("hq-fields-pic-1x1", 5, 66, "HhPFDpaE"), ("hq-fields-frag2-3x2", 5, 3, "HhPFDpaE"),
-         ("ld-frames-frag3-3x2", 5, 65, "HPFDE")])
+        [("hq-frames-frag1-2x2", 5, 0, full), ("hq-frames-pic-2x1", 4, 1, full), ("ld-fields-frag4-2x2", 4, 0, full),
+         ("ld-frames-pic-2x1", 4, 64, full), ("hq-fields-pic-1x1", 4, 66, full), ("hq-fields-frag2-3x2", 4, 3, full)],
+        [("hq-frames-frag1-2x2", 6, 0, full), ("hq-frames-pic-2x1", 6, 1, full), ("ld-fields-frag4-2x2", 6, 0, full),
+         ("ld-frames-pic-2x1", 6, 64, full), ("hq-fields-pic-1x1", 6, 66, full), ("hq-fields-frag2-3x2", 6, 3, full),
+         ("ld-frames-frag3-3x2", 6, 65, full), ("hq-frames-pic-asym-2x1", 5, 2, full)])
     for cfgname, maxlen, level, alphabet in plan:
         cfg = CONFIG_BY_NAME[cfgname]
         for units, word in exhaustive_orderings(ctx, cfg, maxlen, level, alphabet):
@@ -1015,7 +1019,7 @@ def run(ctx):
                       bucket="orderings-len%d" % len(word))
     ctx.exhaustive = True
     # ---- (b) mutated conformant streams ------------------------------------------------------------
-    n_random = ctx.pick(2500, 40000)
+    n_random = ctx.pick(2000, 40000)
     maxlen = ctx.pick(10, 12)
     tries = 0
     made = 0
